@@ -10,6 +10,11 @@ PROPS = {
         "rule": "one execution = one complete interleaving (choice sequence) of the scenario; distinct = distinct observed outcome signatures (status, violations, event-log hash)",
         "assumptions": E1_ASSUME,
     },
+    "C18": {
+        "parts": [{"harness": "c18", "budget": {"quick": 30, "thorough": 300}, "shards": {"quick": 1, "thorough": 1}}],
+        "rule": "one execution = one complete interleaving + timer order of the scenario (schedule list x function duration x Restart/Stop/cancel script); distinct = distinct outcome signatures (status, violations, ordered event log)",
+        "assumptions": E1_ASSUME + ["virtual time: timer accuracy of the real runtime is outside; early timer expiry (a slow goroutine) is a deviation bounded together with preemptions, reaching at most 2 s ahead"],
+    },
 }
 
 NOT_APPLICABLE = {}
@@ -19,5 +24,8 @@ E1_NOTE = ("Trusted base: the vrt shim semantics (sync, atomic, channels, contex
 LEVELS = {
     "C01": {"engine": "vrt", "technique": "stateless model checking of the real code: exhaustive enumeration of thread interleavings up to a preemption bound (happens-before memo completes small scenarios without a bound)",
             "text": "Every interleaving (up to the stated deviation bound, unbounded for the small scenarios) of recorder threads, progress snapshots and the final totals is executed on the real progress.Stats / run.Result / metrics code and the final counts are compared with ground truth; this is the level at which a lost update between two atomics is decidable, which no test run can force.",
+            "note": E1_NOTE},
+    "C18": {"engine": "vrt", "technique": "stateless model checking of the real raterun.Runner under a controlled scheduler with virtual time: all interleavings, select choices and same-instant timer orders up to a deviation bound",
+            "text": "The real Runner runs in virtual time against scripted Restart/Stop/cancel sequences; every interleaving of the runner goroutine with the driver, every select choice among ready cases and every order of same-instant timers is executed (deviation bound per scenario in the evidence) and the ordered event log is checked: rate per schedule activation, argument, nothing executing or invoked after Stop returned, no thread or timer left.",
             "note": E1_NOTE},
 }
